@@ -13,6 +13,7 @@ import (
 	"github.com/33cn/chain33/types"
 	"github.com/golang/snappy"
 	"github.com/libp2p/go-libp2p"
+	dht "github.com/libp2p/go-libp2p-kad-dht"
 	pubsub "github.com/libp2p/go-libp2p-pubsub"
 	"github.com/libp2p/go-libp2p/core/host"
 	"github.com/libp2p/go-libp2p/core/network"
@@ -98,6 +99,7 @@ type Peer struct {
 	Ctx  context.Context
 	Host host.Host
 	PS   *pubsub.PubSub
+	DHT  *dht.IpfsDHT
 
 	mu     sync.Mutex
 	topics map[string]*pubsub.Topic
@@ -118,6 +120,17 @@ func NewPeer(ctx context.Context, name string, withPubsub bool, extra ...libp2p.
 		p.PS = ps
 	}
 	return p
+}
+
+// StartDHT makes the peer a kad server of the node's network, so that the node's routing table accepts and keeps it
+// (kad-dht drops routing-table entries of peers that do not speak its protocol).
+func (p *Peer) StartDHT(n *Node) error {
+	d, err := dht.New(p.Ctx, p.Host, dht.V1ProtocolOverride(lproto.ID(fmt.Sprintf(dhtProtoID, n.Cfg.GetTitle(), n.SubCfg.Channel))), dht.Mode(dht.ModeServer))
+	if err != nil {
+		return err
+	}
+	p.DHT = d
+	return nil
 }
 
 // ID of the peer.
